@@ -152,6 +152,7 @@ def _work_inner(job):
     out = {"results": [], "errors": []}
     todo = [(name, S.by_name(name)) for name in job["seeds"]]
     gen_names = set()
+    simp_names = set()
     if job.get("gen"):
         from .gen import generate
         from .mutate_src import build_module
@@ -165,16 +166,28 @@ def _work_inner(job):
         from .tight import mem_family
         from .mutate_src import build_module
 
+        from .tight import idx_family
+
         lo, hi = job["tight"]
-        mod = build_module(f"c02tight{lo}", mem_family()[lo:hi])
+        fam = (mem_family() + idx_family())[lo:hi]
+        mod = build_module(f"c02tight{lo}", fam)
         todo += [(nm, pr) for nm, pr in mod.PROCS.items()]
         gen_names |= set(mod.PROCS)
+        simp_names = {nm for nm in mod.PROCS if nm.startswith("ti")}
         out["tight_rejected"] = dict(mod.REJ)
     for name, p in todo:
         if p.is_instr():
             continue
         rng = random.Random(f"c02-{job['rngseed']}-{name}")
         plist = [(f"{name}:generated", p, None)] if name in gen_names else programs_for(name, p, env, rng, job["tier"])
+        if name in simp_names:
+            # index-expression family: also in simplify's normal form (constants first: `(-1 + i) / 2`)
+            try:
+                from exo.stdlib.scheduling import simplify as _simp
+
+                plist.append((f"{name}:generated+simplify", _simp(p), None))
+            except BaseException:  # noqa
+                pass
         for k, (pname, q, how) in enumerate(plist):
             t0 = time.time()
             tag = f"{os.getpid()}_{name}_{k}"
@@ -225,7 +238,9 @@ def run(prop, tier):
     jobs += [dict(seeds=[], bounds=bounds, rngseed=vseed, tier=tier, gen=(base + g, per_job)) for g in range(n_gen_jobs)]
     from .tight import mem_family
 
-    n_t = len(mem_family())
+    from .tight import idx_family
+
+    n_t = len(mem_family()) + len(idx_family())
     jobs += [dict(seeds=[], bounds=bounds, rngseed=vseed, tier=tier, tight=(lo, min(n_t, lo + 4))) for lo in range(0, n_t, 4)]
     with mp.get_context("fork").Pool(ncpu(), maxtasksperchild=2) as pool:
         outs = pool.map(_work, jobs, chunksize=1)
